@@ -96,7 +96,7 @@ def run_glyphmap(report, n, rng):
         which = rng.choice(["svg", "png", "both"])
         svg = Path(gen_name(rng, kind) + ".svg") if which in ("svg", "both") else None
         png = Path(gen_name(rng, kind if which == "png" else "plain") + ".png") if which in ("png", "both") else None
-        cps = tuple(rng.choice([0x21, 0x41, 0x1F600, 0x200D, 0xFE0F, 0x10FFFF, rng.randint(0x21, 0x2FFFF)]) for _ in range(rng.choice([0, 1, 1, 2, 5])))
+        cps = tuple(rng.choice([0x21, 0x41, 0x1F600, 0x200D, 0xFE0F, 0x10FFFF, rng.randint(0x21, 0x2FFFF)]) for _ in range(rng.choice([0, 1, 1, 2, 5, 9, 14])))
         name = "g_" + "_".join("%x" % c for c in cps) if cps else rng.choice(["glyph", "a.b", "x_1"])
         g = GlyphMapping(svg, png, cps, name)
         line = g.csv_line()
@@ -151,6 +151,8 @@ def run_names(report, n, rng):
     pool = [0x21, 0x23, 0x2A, 0x30, 0x39, 0x41, 0x5A, 0x61, 0x67, 0x7A, 0xA9, 0x200D, 0xFE0F, 0x1F600, 0x1F3FB, 0x1F469, 0xE0067, 0x10FFFF]
     seqs = set()
     seqs.update([(0x67, 0x1F600), (0x1F600,)])  # witness of the known g_ collision
+    # F13 (fixed 4beef1d): names of 62 and 63 characters that still need the g_ prefix
+    seqs.update([(0x30,) + (0x1F600,) * 10, (0x30,) + (0x1F600,) * 9 + (0x10FFFF,), (0x30,) + (0x1F600,) * 9 + (0x2A,)])
     for _ in range(n):
         k = rng.choice([1, 1, 2, 3, 5, 9, 14])
         seqs.add(tuple(rng.choice(pool + [rng.randint(0x21, 0x2FFFF)]) for _ in range(k)))
@@ -193,7 +195,7 @@ FIELD_VALUES = {
     "ascender": [800, 0, 1900],
     "descender": [-200, 0, -1],
     "linegap": [0, 7, 100],
-    "transform": ["translate(10, -20)", "matrix(1 0 0 1 0 0)", "matrix(0.5 0.1 -0.25 1.5 3.25 1e-07)", "scale(0.3333333333333333)"],
+    "transform": ["translate(10, -20)", "matrix(1 0 0 1 0 0)", "matrix(0.5 0.1 -0.25 1.5 3.25 1e-07)", "scale(0.3333333333333333)", "rotate(30)", "matrix(1 4e-05 -4e-05 1 0.123456789 0)"],
     "version_major": [1, 0, 17],
     "version_minor": [0, 2, 280],
     "reuse_tolerance": [0.1, -1.0, 0.3333333333333333, 1e-07, 5.0],
@@ -279,6 +281,24 @@ def run_config(report, rng, tier):
                         case["differs_after_reload"] = {f: [repr(getattr(resolved, f)), repr(getattr(reloaded, f))] for f in diff}
                         report_failure(report, f"config_roundtrip_{field}_{mode}", dict(kind="property", case=case))
                         return
+        # every listed value of every field survives write + load (whatever the sample above picked)
+        for field in fields:
+            for k, v in enumerate(FIELD_VALUES[field]):
+                n += 1
+                file_cfg = d / f"all_{field}_{k}.toml"
+                file_cfg.write_text(toml.dumps({field: v}) + base_toml)
+                set_flags({})
+                resolved = cfgmod.load(file_cfg)
+                out = d / f"all_out_{field}_{k}.toml"
+                cfgmod.write(out, resolved)
+                reloaded = cfgmod.load(out)
+                report.count(("cfg-all", field, str(v)), True)
+                if getattr(resolved, field) != expect(field, v) or reloaded != resolved:
+                    diff = [f for f in cfgmod.FontConfig._fields if getattr(reloaded, f) != getattr(resolved, f)]
+                    case = dict(function="config.load/write/load", field=field, file_value=v, resolved=repr(getattr(resolved, field)),
+                                differs_after_reload={f: [repr(getattr(resolved, f)), repr(getattr(reloaded, f))] for f in diff})
+                    report_failure(report, f"config_roundtrip_all_{field}_{k}", dict(kind="property", case=case))
+                    return
         # multiple axes / masters
         src2 = d / "b" / "emoji_u1f600.svg"
         src2.parent.mkdir()
